@@ -9,7 +9,7 @@ from .harness import Harness, Stop
 EXIT_KINDS = ['maxfun', 'rho', 'small', 'slow', 'linalg', 'tr_increase', 'eval_error', 'false_success', 'max_restarts']
 
 
-def body(E, n, m, scaling, bounds, restarts, max_runs=3, use_old_rk=True, increase_npt=False):
+def body(E, n, m, scaling, bounds, restarts, max_runs=3, use_old_rk=True, increase_npt=False, xr=False):
     np = E.np
     x0 = E.own(E.vec('x0_', n), 'x0')
     rhobeg = E.real('rhobeg', npy=False)
@@ -51,7 +51,9 @@ def body(E, n, m, scaling, bounds, restarts, max_runs=3, use_old_rk=True, increa
         x = E.vec('x_r%d_' % k, n)
         E.assume(E.all([xl_[i] <= x[i] for i in range(n)] + [x[i] <= xu_[i] for i in range(n)]))
         r = E.vec('r_r%d_' % k, m)
-        obj = E.real('obj_r%d' % k)
+        obj = E.real('obj_r%d' % k, xr=xr)
+        if xr:
+            E.assume(E.no(obj < 0))      # an objective value is NaN, +inf or a non-negative number
         has_jac = E.is_true(E.bool('jac_r%d' % k))
         jac = E.mat('J_r%d_' % k, m, n) if has_jac else None
         jn = E.vec('jn_r%d_' % k, n + 1, dtype='i', lo=1)
@@ -93,6 +95,15 @@ def body(E, n, m, scaling, bounds, restarts, max_runs=3, use_old_rk=True, increa
         return
     E.prove(len(runs) >= 1, 'C07:outer:at-least-one-run')
     if not runs:
+        return
+    if xr:
+        # bad objective values across runs: a NaN result never displaces a non-NaN one, and success never comes with a NaN objective
+        anyok = E.any([E.no(E.isnan(R['ret'][2])) for R in runs])
+        E.prove(E.implies(anyok, E.no(E.isnan(soln.obj))), 'C08:outer:nan-run-result-never-displaces-a-non-nan-one')
+        for R in runs:
+            E.prove(E.implies(E.no(E.isnan(R['ret'][2])), E.no(R['ret'][2] < soln.obj)), 'C08:outer:result-not-worse-than-any-non-nan-run')
+        if soln.flag == E.get('EXIT_SUCCESS'):
+            E.prove(E.implies(anyok, E.no(E.isnan(soln.obj))), 'C10:outer:success-never-with-nan-when-a-finite-run-exists')
         return
     # ---- C01: the starting point handed to every run lies inside the (scaled) box it is given
     for R in runs:
@@ -197,6 +208,13 @@ def outer_harnesses(tier, seed, pid):
     combos = [(1, 1, False, False, True), (1, 1, True, True, True), (1, 1, False, True, False)] if tier == 'quick' else \
         [(1, 1, False, False, True), (1, 1, True, True, True), (2, 1, True, True, True), (1, 2, False, True, True),
          (2, 2, False, False, False), (1, 1, True, True, False), (1, 1, False, True, False), (2, 1, False, True, False)]
+    if pid in ('C08', 'C10'):
+        for old_rk in (True, False):
+            hs.append(Harness("outer[n=1,m=1,hard-restarts,old_rk=%d,bad-values]" % old_rk, 'dfverif.outer', 'body',
+                              params=dict(n=1, m=1, scaling=False, bounds=False, restarts=True, max_runs=3, use_old_rk=old_rk, increase_npt=False, xr=True),
+                              cfg=core.Cfg(qtimeout_ms=20000, uflin=True), functions=FUNCS, home='OUTER',
+                              bounds="n=1, m=1, at most 3 runs, every run's objective NaN / +inf / finite",
+                              assumptions=["solve_main replaced by its summary; objective values NaN, +inf or >= 0"], nproc=None, max_replays=3, wall_budget=300))
     for (n, m, scaling, bounds, restarts) in combos:
         variants = [(True, False)] if tier == 'quick' else [(True, False), (False, False), (True, True)]
         for (old_rk, inc) in (variants if restarts else [(True, False)]):
